@@ -52,6 +52,9 @@ CLAIMS = {
     'C15': dict(
         text="Decides the mutual-consistency clause structurally: both Huffman tree builders build the heap from the same keyed source enumerate().map(|(i,s)| Reverse((s,i))) (deterministic tie-break by symbol index), pop two and push Reverse((w0+w1, next)) with the node counter starting at the number of symbols and stepping by one, and give bit 0 to the child popped first; out-of-alphabet symbols are rejected before any bit is emitted and the default prefix/suffix adaptors buffer first; the entry index of both unchecked table walks is in bounds. Not decided: prefix-freeness, Kraft equality, optimality, that decode inverts encode for every codeword (statements about code lengths / bit patterns).",
         tech="sibling agreement of the two builders' merge loops over role-normalised value-graph terms; ordering rule; difference-bound entry check"),
+    'C16': dict(
+        text="Decides position / direction / marker agreement of the bit-level coders for all word types and histories: writing the one-hot mask as 2^p, write_bit stores each bit at the position the mask then points to (p+1; a fresh word starts at position 0) and flushes exactly when the word is full; StackCoder::read_bit tests the bit at the mask and steps to p-1 (after a refill: BITS-1), i.e. it undoes write_bit; QueueDecoder::read_bit tests the bit at the mask and steps to p+1 (after a refill: 0), i.e. it replays write_bit; the queue and stack write_bit bodies are identical; len() adds trailing_zeros(mask)+1 bits for the partial word; re-import takes the end marker at the top set bit (where the sealing write_bit(true) puts it), removes it and leaves the mask one position below; all emptiness tests use the same sentinel field; the export guards push and pop symmetrically and view what the export writes. Not decided: the bit contents of the word (that other bits are preserved, that bits above the mask are zero), Exp-Golomb and Huffman round trips for every value.",
+        tech="abstract interpretation of one-hot masks in a bit-position domain (power-of-two exponents over symbolic widths); sibling agreement of the step functions; structural (DAG) equality of clones; effect-count guard pairing"),
 }
 
 NA = {
@@ -59,7 +62,6 @@ NA = {
     'C06': "equality with an external reference bit stream: a symmetric change of encoder and decoder is invisible to any sibling rule, and comparing against a frozen copy of today's formulas would alarm on every behaviour-preserving rewrite",
     'C11': "interval arithmetic on lower/range values of the seal words; no structural fact implies it",
     'C12': "analytic inequality between bit counts and information content (value-level)",
-    'C16': "LIFO/FIFO identity, exact len(), re-import and Exp-Golomb round trips are statements about bit patterns inside words (their inspection guards are decided under C08)",
 }
 PENDING = "check not built yet in this round (see DESIGN.md §7 build order); will be claimed or declared not applicable with a reason"
 
